@@ -242,6 +242,12 @@ def _fmtset(s):
 K_PICKY = fd.Key("field", "picky", rec="lzma_alone_coder@alone_decoder.c", domain=(0, 1), label="picky")
 
 TABLE = [
+    MP("auto:finish-only-for-alone", "auto_decode", "auto_decoder.c",
+       [("cmp", "field:get_check", "const:0")], ("seq", "SEQ_FINISH"),
+       src=("SEQ_INIT", "SEQ_CODE"), init_seq=("SEQ_INIT",),
+       why="the state that turns leftover input into LZMA_DATA_ERROR is entered only when the format decoder is the .lzma one "
+           "(next.get_check == NULL); the .xz and .lz decoders implement LZMA_CONCATENATED themselves and the .lz decoder "
+           "legitimately leaves foreign trailing data unread"),
     MP("auto:finish-trailing", "auto_decode", "auto_decoder.c",
        [("rel", "deref:in_pos", "var:in_size", ("<",), "F")], ("ret", END),
        src=("SEQ_FINISH",), init_seq=("SEQ_INIT",), states=("SEQ_FINISH",), fail=DATA,
